@@ -15,7 +15,10 @@ def build_array(exe, root, rng, clean=True, nparity=None, ndisks=None, weird=Tru
     s.populate(2 + rng.below(4))
     force = rng.choice([[], ['--test-force-murmur3'], ['--test-force-spooky2']])
     s.sync(*force)
-    for _ in range(rng.below(4)):
+    # half of the histories are rich in copies with preserved time-stamps, touches and re-touches between partial syncs
+    # (provisional hashes that are replaced again before they ever reach the parity)
+    s.churn = rng.chance(1, 2)
+    for _ in range((2 + rng.below(3)) if s.churn else rng.below(4)):
         s.fs_random(1 + rng.below(5))
         k = rng.below(6)
         if k == 0: s.sync('-B', str(1 + rng.below(3)))
